@@ -1036,3 +1036,91 @@ def powm1_exact_concrete(p, m):
         return r._mpf_ == want, 'powm1(%d, %r) = %r' % (x, y, r)
     finally:
         mp.prec = 53
+
+
+# ------------------------------------------------------------------------------ digamma (real): the Euler-Maclaurin path rounds to prec
+def psi0_bits(p):
+    """mpf_psi0(x, prec, rnd) for 2 <= x < 4 on its main path (recurrence + Euler-Maclaurin sum in fixed point; mpf_log stubbed by
+    an arbitrary value of the precision it is asked for): the returned value has at most `prec` bits."""
+    from mpmath.libmp import gammazeta, libelefun
+    from pysym.engine import NORMAL
+    prec, rnd = p['prec'], p['rnd']
+    ob = Ob(wbump(p, 6 * (prec + 12) + 80), timeout_s=p.get('_t', 60), mul_precise_bits=4096, max_unroll=40,
+            models=__import__('pysym.mpmodels', fromlist=['x']).mp_models(contract_divmod=True, contract_sqrt=False))
+    G.stats['DIV_PRECISE_BITS'] = 4096
+    cnt = [0]
+
+    def m_log(eng, st, a, k, fr):
+        q = a[1]
+        if isinstance(q, SInt):
+            raise Unsupported('symbolic precision for the stubbed log')
+        cnt[0] += 1
+        n0 = len(ob.assume)
+        # log of a number in [1, 6): a positive value below 2
+        t = ob.mpf('lg%d' % cnt[0], q, exp=-q, sign=0)
+        G.SIDE.extend(ob.assume[n0:])
+        return [(st, NORMAL, t)]
+    ob.eng.models[libelefun.mpf_log] = m_log
+    # Bernoulli numbers are requested with concrete arguments: take them from the real (cached) routine natively
+    real_bern = gammazeta.mpf_bernoulli
+    ob.eng.models[real_bern] = lambda eng, st, a, k, fr: [(st, NORMAL, real_bern(*a, **k))]
+    x = ob.mpf('x', 4, exp=p.get('xexp', -2), sign=0)        # 8..15 quarters = 2 .. 3.75
+    outs = ob.run(gammazeta.mpf_psi0, [x, prec, rnd])
+    return finish(ob, ob.prove(outs, lambda v, st: canonical(v, prec) if isinstance(v, tuple) and len(v) == 4 else False))
+
+
+def psi0_bits_concrete(p, m):
+    from mpmath.libmp import gammazeta
+    prec, rnd = p['prec'], p['rnd']
+    x = (0, m.get('x_man', 9), p.get('xexp', -2), 4)
+    r = gammazeta.mpf_psi0(x, prec, rnd)
+    return r[3] <= prec, 'mpf_psi0(%r, %d, %r) has %d bits' % (x, prec, rnd, r[3])
+
+
+def besseljn_bits(p):
+    """mpf_besseljn(n, x, prec, rnd) -- the fixed-point series behind besselj/j0/j1 for integer order and moderate argument --
+    returns at most `prec` bits.  x symbolic with a mantissa longer than prec and a magnitude small enough for the series loop to
+    end after its first terms (the loop itself runs for real)."""
+    from mpmath.libmp import libhyper
+    n, prec, rnd = p['n'], p['prec'], p['rnd']
+    ob = Ob(wbump(p, 4 * (prec + 80)), timeout_s=p.get('_t', 60), mul_precise_bits=4096, max_unroll=12,
+            models=__import__('pysym.mpmodels', fromlist=['x']).mp_models(contract_divmod=True, contract_sqrt=False))
+    G.stats['DIV_PRECISE_BITS'] = 4096
+    x = ob.mpf('x', p.get('bc', 7), exp=p.get('xexp', -50))
+    outs = ob.run(libhyper.mpf_besseljn, [n, x, prec, rnd])
+    return finish(ob, ob.prove(outs, lambda v, st: z3.Or(is_tuple(v, FZERO), canonical(v, prec)) if isinstance(v, tuple) and len(v) == 4 else False))
+
+
+def besseljn_bits_concrete(p, m):
+    from mpmath.libmp import libhyper
+    n, prec, rnd = p['n'], p['prec'], p['rnd']
+    x = (m.get('x_sign', 0), m.get('x_man', 77), p.get('xexp', -50), p.get('bc', 7))
+    r = libhyper.mpf_besseljn(n, x, prec, rnd)
+    return r[3] <= prec, 'mpf_besseljn(%d, %r, %d, %r) has %d bits' % (n, x, prec, rnd, r[3])
+
+
+def bits_points(p):
+    """no solver obligation: native witnesses of a recorded finding (public function at a point returns more bits than mp.prec)"""
+    raise Unsupported('native witness only')
+
+
+def bits_points_concrete(p, m):
+    import mpmath
+    mp = mpmath.mp
+    old = mp.prec
+    bad = []
+    try:
+        for name, prec, argtext in p['points']:
+            mp.prec = prec
+            args = [mp.mpmathify(a.strip()) if 'j' in a else mp.mpf(a.strip()) for a in argtext.split(',')]
+            try:
+                r = getattr(mp, name)(*args)
+            except Exception as e:
+                continue
+            parts = [r._mpf_] if hasattr(r, '_mpf_') else list(r._mpc_) if hasattr(r, '_mpc_') else []
+            bits = [t[3] for t in parts]
+            if any(b > prec for b in bits):
+                bad.append('%s(%s) at %d bits returns %s bits' % (name, argtext, prec, bits))
+        return not bad, '; '.join(bad[:4])
+    finally:
+        mp.prec = old
